@@ -106,6 +106,7 @@ func runC08(r *fw.Run, p *fw.Program) {
 	c.ruleNumLen()
 	c.ruleStrNum()
 	c.ruleNullSem()
+	c.ruleErrs()
 	c.rulePure()
 	c.ruleToValue()
 	c.ruleJQ()
